@@ -16,7 +16,7 @@ func init() {
 	register("C11", &monitor{
 		run: runC11,
 		rule: "(1) parameter-domain edges enumerated: every surrogate, negative, out-of-range and boundary rune for every rune-taking method and all 256 bytes for every byte-taking method of StringBuilder, the SafePrinter (Sprintfn and SafeFormat) and ManualBuffer in every mode, each in 5 buffer states; every reflect.Kind, nil and typed nil for JoinTo; every prefix of 40 hostile formats x 9 operand lists; nil and typed-nil operands through all routes; " +
-			"(2) user methods that panic at every position of a script (SafeFormat, SafeMessage, String, Error, Format, GoString; 9 payload modes (incl. a typed nil pointer whose own method dereferences it, alone and inside a slice)), at top level, between literals, inside containers and inside nested Print/Printf; " +
+			"(2) user methods that panic at every position of a script (SafeFormat, SafeMessage, String, Error, Format, GoString; 10 payload modes (incl. a typed nil pointer whose own method dereferences it, alone and inside a slice)), at top level, between literals, inside containers and inside nested Print/Printf; " +
 			"oracle: no panic escapes a public call (except where the payload's own printing panics, as in fmt), output well-formed and line-safe, text written before the failing element identical to the text of the same call cut at that element, PANIC= report in place with the payload inside an envelope, text after it intact; " +
 			"non-trivial = an edge value outside the valid domain or a contained panic was observed; distinct = distinct cases",
 	})
@@ -237,6 +237,12 @@ func panicText(mode int, msg string) string {
 		return "<nil>"
 	case 7:
 		return "[<nil>]"
+	case 9:
+		idx := 1
+		if len(msg) > 0 {
+			idx += int(msg[0])
+		}
+		return "runtime error: index out of range [" + itoa(idx) + "] with length 1"
 	}
 	return msg
 }
@@ -258,7 +264,7 @@ func c11panics(c *Ctx) {
 	msgs := []string{"boom", "b" + startM + "m", "line\nfeed", "", "é日", "%v%!", endM}
 	c.ParallelFor(n, func(w *Worker, i int64) {
 		r := newRng(c.Seed, 0xc11, uint64(i))
-		pc := c11panicCase{Mode: []int{0, 1, 2, 3, 6, 7, 8}[r.Intn(7)], Msg: msgs[r.Intn(len(msgs))], Shape: shapes[r.Intn(len(shapes))], Method: methods[r.Intn(len(methods))]}
+		pc := c11panicCase{Mode: []int{0, 1, 2, 3, 6, 7, 8, 9}[r.Intn(8)], Msg: msgs[r.Intn(len(msgs))], Shape: shapes[r.Intn(len(shapes))], Method: methods[r.Intn(len(methods))]}
 		nsteps := r.Intn(5)
 		for k := 0; k < nsteps; k++ {
 			st := randStep(r, 1, o)
@@ -407,7 +413,7 @@ func c11panicCheck(w *Worker, pc c11panicCase, idx int64) {
 		return
 	}
 	// The payload is unsafe: with envelopes deleted it must be gone.
-	if pc.Msg != "" && (pc.Mode < 3 || pc.Mode == 8) {
+	if (pc.Msg != "" && (pc.Mode < 3 || pc.Mode == 8)) || pc.Mode == 9 {
 		p := parse(full)
 		so := safeOnly(p)
 		if i := strings.Index(so, report); i >= 0 {
@@ -590,7 +596,7 @@ func c11withoutMarkers(c *Ctx) {
 			}
 			at := r.Intn(len(steps) + 1)
 			if k < 9 {
-				mode := []int{0, 1, 2, 3, 6, 7, 8}[r.Intn(7)]
+				mode := []int{0, 1, 2, 3, 6, 7, 8, 9}[r.Intn(8)]
 				steps = append(steps[:at:at], append([]*D{{K: "sPanic", S: "boom" + startM, N: int64(mode)}}, steps[at:]...)...)
 				desc = "SafeFormat script panicking at step " + itoa(at) + " (mode " + itoa(mode) + ")"
 			} else {
